@@ -17,7 +17,7 @@ EXPLANATION = (
     'range(start, end + 1) - a bounded write: nothing can be appended outside the window and a line that straddles the '
     'start is reachable because the map is keyed per byte address; C03.4 the default end is the maximum byte address of '
     'that map; C03.5 loop bounds are inclusive [start, end]; C03.6 the command line options are wired to the matching '
-    'constructor parameters (-s/-e/-f/-o) and only assemble_bytecode opens the output file. Not decided: byte-for-byte '
+    'constructor parameters (-s/-e/-f/-o), no value carrying one of the numeric options is tested by truthiness (address 0 and fill 0 are values) and only assemble_bytecode opens the output file. Not decided: byte-for-byte '
     'content for all programs (depends on C01/C11 arithmetic).'
 )
 ASSUMPTIONS = [
